@@ -55,6 +55,10 @@ CLAIMED['C14'] = dict(
    text='Machine-checked theorems on the heap model of function objects and registries: for a function decorated by any sequence of deal decorators (stacked or chained) get_contracts yields exactly one record per applied validator, kinds in the documented order and each kind in application order, plus the patcher in force; the records are the registry entries the wrapper itself runs; unwrap returns the original; a registry reachable several times along the __wrapped__ chain is reported once. Model hand-written with pinned source; random compositions with introspection queries are executed on model and real deal; record.validate vs the runtime verdict and init_all idempotence are probed on the implementation.',
    design_ref='DESIGN.md 4.14', note=GENERIC_NOTE + ' The introspection functions are modelled by hand (pinned source + correspondence); inheritance through Inherit is covered under C11.',
    technique='Coq proof over a hand-written heap model (source-pinned) + differential correspondence + monitor')
+CLAIMED['C11'] = dict(
+   text='Machine-checked theorems on a class-table model of Inherit._patch over a C3 linearisation: a method marked inherit enforces its own contracts and, for every class after the defining class in its MRO, every contract of the method that class resolves the name to (transitively through inherit-marked ancestors); methods not marked keep exactly their own. The model is hand-written with pinned source; on random hierarchies (single, multiple, diamond; inherit on methods; own contracts below inherit) the registry the real get_contracts reports equals the model\'s (order and multiplicity included) and CPython\'s MRO equals the C3 model; an independent monitor checks enforcement by calls on the first and on later calls and that the body sees the instance as self.',
+   design_ref='DESIGN.md 4.11', note=GENERIC_NOTE + ' Inherit._patch and type.mro() are modelled by hand (pinned source + correspondence with the real class machinery).',
+   technique='Coq proof over a hand-written class-table model (source-pinned) + differential correspondence + monitor')
 UNCLAIMED_REASON = 'not claimed yet: the Coq model and check for this property are still under construction in this round (no technique switch intended)'
 checks, na = [], []
 for p in props:
